@@ -15,6 +15,7 @@ import (
 
 	wrapping "github.com/hashicorp/go-kms-wrapping/v2"
 	"github.com/hashicorp/nodeenrollment"
+	"github.com/hashicorp/nodeenrollment/protocol"
 	"github.com/hashicorp/nodeenrollment/registration"
 	"github.com/hashicorp/nodeenrollment/rotation"
 	nodetls "github.com/hashicorp/nodeenrollment/tls"
@@ -33,16 +34,17 @@ var kinds = map[string]error{
 var kindNames = []string{"generic", "notfound", "cancelled"}
 
 type world struct {
-	seed   int64
-	k      map[string]*harness.CertKey
-	e      map[string]*harness.EncKey
-	rw     wrapping.Wrapper
-	tok    *harness.Token
-	base   *harness.MemStore // roots + bystander B + registered node A (node id "X") + token + re-wrapper R
-	bSnap  []byte
-	rPub   []byte
-	aPub   []byte
-	nodeSt *harness.MemStore // node-side store with fresh credentials of K1
+	seed    int64
+	k       map[string]*harness.CertKey
+	e       map[string]*harness.EncKey
+	rw      wrapping.Wrapper
+	tok     *harness.Token
+	base    *harness.MemStore // roots + bystander B + registered node A (node id "X") + token + re-wrapper R
+	bSnap   []byte
+	rPub    []byte
+	aPub    []byte
+	nodeSt  *harness.MemStore // node-side store with fresh credentials of K1
+	lastErr error
 }
 
 func newWorld(seed int64) *world {
@@ -249,7 +251,66 @@ func flows() []flow {
 			}
 			return o
 		}},
+		dialFlow("dial-first-time-node-faults", true),
+		dialFlow("dial-first-time-server-faults", false),
 	}
+}
+
+// dialFlow: an authorized node dials for the first time (fetch handshake,
+// handling of the response, authentication handshake) through the real
+// listener; faults hit either the node's or the server's storage.
+func dialFlow(name string, nodeFaults bool) flow {
+	return flow{name, func(w *world, st *harness.MemStore) {
+		if nodeFaults {
+			// st becomes the node's store; the server side is a clone of the base store
+			for _, k := range st.Keys() {
+				f := strings.SplitN(k, "/", 2)
+				st.DeleteRaw(f[0], f[1])
+			}
+			if err := harness.NodeCreds(w.k["KA"], w.e["KA"], harness.Bytes("nonce-KA", 32)).Store(harness.Ctx, st); err != nil {
+				panic(err)
+			}
+		}
+	}, func(w *world, st *harness.MemStore) outcome {
+		server, node := w.base.Clone(), st
+		if !nodeFaults {
+			server = st
+			node = harness.NewMemStore()
+			if err := harness.NodeCreds(w.k["KA"], w.e["KA"], harness.Bytes("nonce-KA", 32)).Store(harness.Ctx, node); err != nil {
+				panic(err)
+			}
+		}
+		var derr error
+		connected := false
+		rs, serr := harness.Serve(harness.ServerConfig{Storage: server}, func(addr string) {
+			conn, e := protocol.Dial(harness.Ctx, node, addr)
+			derr = e
+			if conn != nil {
+				connected = true
+				conn.Close()
+			}
+		})
+		harness.CloseAll(rs)
+		if serr != nil {
+			panic(serr)
+		}
+		for _, a := range rs {
+			if a.Panic != "" {
+				panic("Accept panicked: " + a.Panic)
+			}
+		}
+		o := outcome{Err: derr, Handed: connected}
+		if derr == nil && connected {
+			l, lerr := types.LoadNodeCredentials(harness.Ctx, node.Clone(), nodeenrollment.CurrentId)
+			switch {
+			case lerr != nil || len(l.CertificateBundles) != 2:
+				o.Durable = "the dial succeeded but the node's storage does not hold the fetched certificates"
+			case server.NodeInfo(w.k["KA"].KeyId) == nil:
+				o.Durable = "the dial succeeded but the server holds no record of the node"
+			}
+		}
+		return o
+	}}
 }
 
 func rootsFlow(name string, prep func(*world, *harness.MemStore), reinit bool, advanceDays int) flow {
@@ -331,6 +392,7 @@ func (w *world) one(f flow, k kase, r *engine.Report) (string, string, int) {
 		o = f.Run(w, st)
 	}()
 	calls := st.Calls
+	w.lastErr = o.Err
 	hit := 0
 	for _, op := range st.Log {
 		if op.Err != "" && op.Err != "not found" && op.Err != "duplicate" {
@@ -363,7 +425,7 @@ func (w *world) one(f flow, k kase, r *engine.Report) (string, string, int) {
 	if o.Durable != "" && strings.Contains(o.Durable, "left usable") {
 		return "token-left-usable:" + f.Name, desc + ": " + o.Durable, calls
 	}
-	if f.Name != "node-new-credentials" && f.Name != "node-handle-response" {
+	if f.Name != "node-new-credentials" && f.Name != "node-handle-response" && f.Name != "dial-first-time-node-faults" {
 		// the token clause holds whatever the call returned
 		if f.Name == "fetch-token" && st.NodeInfo(w.k["K1"].KeyId) != nil {
 			if _, still := st.Raw("token", w.tok.Id); still {
@@ -406,6 +468,10 @@ func run(c *engine.Ctx, r *engine.Report) {
 		sig, msg, n := w.one(f, kase{Flow: f.Name, Seed: c.Seed}, r)
 		if sig != "" {
 			r.Violate("fault-free:"+sig, msg, kase{Flow: f.Name, Seed: c.Seed})
+			continue
+		}
+		if w.lastErr != nil {
+			r.InfraError(fmt.Sprintf("flow %s does not succeed without faults: %v", f.Name, w.lastErr))
 			continue
 		}
 		positions[f.Name] = n
@@ -479,7 +545,7 @@ func init() {
 	engine.Register(&engine.CheckDef{
 		ID:    "C13",
 		Level: "fault_enumeration",
-		Rule: "17 flows (authorize; fetch: authorized / unauthorized / token / wrapper / re-wrapped; token creation; root rotation: empty / no-op / promote / reinit; node rotation by key id / node id; server certificates by key id / node id; node-side NewNodeCredentials and HandleFetchNodeCredentialsResponse) x every storage call position of the fault-free run x {generic error, ErrNotFound, context.Canceled}; thorough adds every pair of positions x 9 kind pairs; " +
+		Rule: "19 flows (authorize; fetch: authorized / unauthorized / token / wrapper / re-wrapped; token creation; root rotation: empty / no-op / promote / reinit; node rotation by key id / node id; server certificates by key id / node id; node-side NewNodeCredentials and HandleFetchNodeCredentialsResponse; a first-time Dial through the real listener with faults in the node's resp. the server's storage) x every storage call position of the fault-free run x {generic error, ErrNotFound, context.Canceled}; thorough adds every pair of positions x 9 kind pairs; " +
 			"distinct_nontrivial counts fault placements (distinct by construction) in which every injected fault was actually reached by the call",
 		Assumptions: []string{"a failing storage call has no effect (no torn writes: the Storage interface is message-granular)", "a fault that turns a refusal into a durable success is not judged here (the property allows a result that is fully reflected in storage)"},
 		Shards:      func(c *engine.Ctx) int { return 8 },
